@@ -361,6 +361,8 @@ class Run:
         self.final_done_at = None
         self.aux = None
         self.cid = None
+        self.async_open = set()
+        self.not_run = 0
 
     def make_task(self, tid, spec):
         run = self
@@ -421,16 +423,25 @@ class Run:
             elif k == 'via':
                 vc = {'sys': clk.SystemClock, 'app': clk.AppClock, 'aux': self.aux}[op[1]]
                 inner, tag = op[2], 'via-' + op[1]
+                tok = new_token()
+                self.async_open.add(tok)
 
                 def helper():
-                    self.do_op(inner, tag)
+                    # asynchronous: the scenario does not end before this has run (or was cancelled)
+                    if tok in self.async_open:
+                        try:
+                            self.do_op(inner, tag)
+                        finally:
+                            self.async_open.discard(tok)
                 f = fn.Function(helper)
                 KEEP.append(f)
                 vc.sched(0, f)
             elif k == 'osc_do':
-                OSC_PENDING.append((self, op[1]))
+                tok = new_token()
+                self.async_open.add(tok)
+                OSC_PENDING[tok] = (self, op[1])
                 s = socket.socket(socket.AF_INET, socket.SOCK_DGRAM)
-                s.sendto(b'/c08do\x00\x00,\x00\x00\x00', ('127.0.0.1', main._osc_interface.port))
+                s.sendto(b'/c08do\x00\x00,i\x00\x00' + tok.to_bytes(4, 'big'), ('127.0.0.1', main._osc_interface.port))
                 s.close()
             elif k == 'osc':
                 s = socket.socket(socket.AF_INET, socket.SOCK_DGRAM)
@@ -534,6 +545,12 @@ class Run:
             t.start()
         for t in ths:
             t.join(30)
+        # operations issued through other clocks / the OSC receive path are asynchronous: wait for them
+        # (a lost datagram or a very late helper is cancelled, never executed after the scenario)
+        wait_for(lambda: not self.async_open, 5)
+        with main._main_lock:
+            self.not_run = len(self.async_open)
+            self.async_open.clear()
         # let the pending tasks run: until nothing is queued or the horizon passes
         q = c._scheduler.queue if kind == 'app' else c._task_queue
         t_end = time.time() + sc.get('horizon', 1.0)
@@ -583,7 +600,7 @@ class Run:
                 'other': sorted(set(str(e[0]) for e in log if e[0] != cid)),
                 'awakes': self.awakes, 'scheds': self.scheds, 'errors': self.errors,
                 'alive': alive, 'window': window, 'problems': list(PROBLEMS),
-                'final_done_at': self.final_done_at}
+                'final_done_at': self.final_done_at, 'async_not_run': self.not_run}
 
     def client(self, i, ops):
         for op in ops:
@@ -626,14 +643,28 @@ class Run:
         return res
 
 
-OSC_PENDING = []
+OSC_PENDING = {}
+_TOK = [0]
+_TOKL = threading.Lock()
+
+
+def new_token():
+    with _TOKL:
+        _TOK[0] += 1
+        return _TOK[0]
 
 
 def osc_recv(msg, time_, addr, port):
     # runs inside the task that the OSC receive thread scheduled on SystemClock
-    if msg and msg[0] == '/c08do' and OSC_PENDING:
-        run, op = OSC_PENDING.pop(0)
-        run.do_op(op, 'osc')
+    if msg and msg[0] == '/c08do' and len(msg) > 1:
+        ent = OSC_PENDING.pop(msg[1], None)
+        if ent is not None:
+            run, op = ent
+            if msg[1] in run.async_open:
+                try:
+                    run.do_op(op, 'osc')
+                finally:
+                    run.async_open.discard(msg[1])
 
 
 def main_():
